@@ -121,8 +121,11 @@ def events(n, out):
         inner = n.get('inner', [])
         out.append(('if', expr(inner[0]) if inner else '', []))
         calls_in(inner[0], out)
-        for c in inner[1:]:
-            events(c, out)
+        if len(inner) > 1:
+            events(inner[1], out)
+        if len(inner) > 2:
+            out.append(('else', '', []))
+            events(inner[2], out)
         out.append(('endif', '', []))
     elif k in ('NullStmt',):
         pass
@@ -209,7 +212,7 @@ def generate(repo, incdir, workdir):
     out = ['(* GENERATED by /verif/vlib/shapes.py from the class-template patterns of the current working tree -- do not edit.',
            '   Per member function: ordered events (lock declarations, calls with normalised arguments, ifs, returns). *)',
            'From Coq Require Import String List.', 'Import ListNotations.', 'Local Open Scope string_scope.', '',
-           'Inductive sev := SLock | SCall (callee : string) (args : list string) | SAssign (lhs rhs : string) | SIf (cond : string) | SEndIf | SReturn | SOther (what : string).',
+           'Inductive sev := SLock | SCall (callee : string) (args : list string) | SAssign (lhs rhs : string) | SIf (cond : string) | SElse | SEndIf | SReturn | SOther (what : string).',
            'Record member := { m_class : string; m_name : string; m_params : list string; m_const : bool; m_events : list sev }.', '',
            'Definition members : list member := [']
     items = []
@@ -230,6 +233,8 @@ def generate(repo, incdir, workdir):
                 evs.append('SIf %s' % coq_str(e[1]))
             elif e[0] == 'endif':
                 evs.append('SEndIf')
+            elif e[0] == 'else':
+                evs.append('SElse')
             elif e[0] == 'return':
                 evs.append('SReturn')
             else:
